@@ -8,5 +8,5 @@ PROP = dict(
     trusted_base=['z3 5.1 / cvc5 1.0.3', 'pyvc symbolic executor and its encoding of Python (DESIGN.md section 2.3)', 'CPython 3.12, PLY 3.11 (A-PLY)'],
     manifest=dict(text='Bounded: all arrangements of 2 inputs, 3 builds, 3 mutations over 9 mutation kinds and 9 scenarios; every other metamodel and later build compared after each event.',
                   note='The user does not mutate Stmt objects or association key lists directly.',
-                  technique='bounded stand-in: run-time contracts on the real functions driven by exhaustive small-scope enumeration (labelled bounded, never counted as proved)'),
+                  technique='bounded stand-in (run-time contracts on the real functions driven by small-scope enumeration; labelled bounded, never counted as proved); no function of this property is within the reach of the deductive tier yet (reasons in DESIGN.md, build-round status)'),
 )
